@@ -36,11 +36,13 @@ def plan(tier):
         return [
             dict(cfgs=four, trees=fsops.small_trees(3), burst_len=1, depth=2, cap=60000),
             dict(cfgs=[C()], trees=fsops.small_trees(2), burst_len=2, depth=1, cap=40000),
+            dict(cfgs=[C(names="prefix")], trees=fsops.small_trees(2), burst_len=1, depth=2, cap=20000),
         ]
     return [
         dict(cfgs=four, trees=fsops.small_trees(4), burst_len=1, depth=3, cap=1_500_000),
         dict(cfgs=[C(), C(full=True)], trees=fsops.small_trees(4), burst_len=2, depth=1, cap=600_000),
         dict(cfgs=[C()], trees=fsops.small_trees(2), burst_len=3, depth=1, cap=600_000),
+        dict(cfgs=[C(names="prefix")], trees=fsops.small_trees(3), burst_len=2, depth=1, cap=400_000),
     ]
 
 
@@ -48,6 +50,7 @@ def run(ctx):
     for i, p in enumerate(plan(ctx.tier)):
         fsops.graph_search(ctx, p["cfgs"], p["trees"], CHECKS, burst_len=p["burst_len"], depth=p["depth"],
                            respect_pacing=True, cap=p["cap"], label=f"graph{i}", classify=fsops.classify)
+    fsops.single_op_deviation_search(ctx, CHECKS, tier=ctx.tier)
 
 
 def replay(rec):
